@@ -282,8 +282,13 @@ func (e *CEnv) renamedLocal(name string) *CV {
 		return nil
 	}
 	cands := map[string]bool{}
+	oldLocals := map[string]bool{}
+	for _, n := range strings.Split(table["$locals"], ",") {
+		oldLocals[n] = true
+	}
 	add := func(n string, t types.Type) {
-		if n == "" || n == "_" || table[n] != "" || t == nil {
+		// a candidate is a local that did not exist under that name on the unchanged tree
+		if n == "" || n == "_" || table[n] != "" || t == nil || oldLocals[n] {
 			return
 		}
 		if types.TypeString(t, nil) == want {
